@@ -217,7 +217,7 @@ class KaniSession:
                 tests.append((m.group(1), m.group(2).strip().strip('"'), f.group(1), block))
         return tests
 
-    def run_playback(self, module_file, tests, release=False, timeout_s=900):
+    def run_playback(self, module_file, tests, release=False, timeout_s=900, test_filter="kani_concrete_playback"):
         """Compile the generated tests into the harness module and run them natively. Returns {test: 'ok'|'FAILED'|...}."""
         pb = os.path.join(self.hdir, module_file)
         with open(pb, "w") as f:
@@ -230,7 +230,7 @@ class KaniSession:
             env["CARGO_PROFILE_TEST_DEBUG_ASSERTIONS"] = "false"
             env["CARGO_PROFILE_TEST_OVERFLOW_CHECKS"] = "false"
         cmd = ["cargo", "kani", "playback", "-Z", "concrete-playback", "-p", self.package, "--lib", "--",
-               "kani_concrete_playback", "--test-threads", "1"]
+               test_filter, "--test-threads", "1"]
         log = os.path.join(self.dir, "pbrun_%s.log" % ("rel" if release else "dev"))
         with open(log, "w") as lf:
             try:
